@@ -540,7 +540,12 @@ func (g *agen) note(from, to, pos int, name string) {
 func (g *agen) fn(badRecv bool) {
 	if g.r.Intn(3) == 0 {
 		g.feat["doc"] = true
-		g.w(g.pick("// doc comment.\n", "// doc comment\n// func old(a string, b int) {\n", "/* doc\n   comment */\n", "//go:noinline\n"))
+		c := g.pick("// doc comment.\n", "// doc comment\n// func old(a string, b int) {\n", "/* doc\n   comment */\n", "//go:noinline\n",
+			"// a lone carriage\rreturn is not a line ending\n", "/* nor\rhere\r*/\n")
+		if strings.Contains(c, "\r") {
+			g.feat["lonecr"] = true
+		}
+		g.w(c)
 	}
 	from := g.line
 	pos := g.b.Len() + 1
